@@ -94,7 +94,15 @@ def judge(ctx, binary, cases):
         if " P=- " in io:
             verdicts[n] = {"impl": io[:400], "model": "", "bad": [("proj", "no-projection-returned")], "soft": []}
             continue
-        ncalls[n] = sp.fields(io).get("calls", "1")
+        fo = sp.fields(io)
+        ncalls[n] = fo.get("calls", "1")
+        if c["topic"] == "pca" and fo.get("calls") == "0" and fo.get("P", "-") != "-":
+            # no eigendecomposition reached the hook: the returned (P, mean, Y) are still judged by the property's oracle —
+            # P stands for the eigenvectors, the variances of the embedding's columns for the eigenvalues
+            Y = [[sp.parse_dyadic(v) for v in row.split(",")] for row in fo["Y"].split(";")]
+            var = [sum(Y[i][j] * Y[i][j] for i in range(len(Y))) / len(Y) for j in range(len(Y[0]))]
+            io = io.replace(" pre=- ", " pre=%s " % fo["cov"]).replace(" V=- ", " V=%s " % fo["P"]).replace(
+                " lam=- ", " lam=%s " % ",".join(sp.fr(x) for x in var))
         jl.append(line + " " + io[3:])
         where.append(n)
     if jl:
